@@ -18,6 +18,7 @@ RULE = ("(A) token-level: 1-3 mutations (delete, duplicate, swap adjacent / dist
         "and counted - but still compiled, after which (and after every rejected text containing /*) fixed invalid canaries such as "
         "'junk */ def e {...}' must still be rejected (compiling is stateless). Non-trivial = mutated text rejected by the reference; distinct by text.")
 RULE += (' Since rounds 6-7: a stray-character sweep (every ASCII character at every token boundary, spaced and glued) and a stray-token sweep (57 small tokens inserted at / substituted for every position) over two base texts.')
+RULE += (' Since rounds 14-15: lone surrogates in the sweep; header lines of other languages, strings spanning lines, bare words and doubled signs in the fixed catalogue.')
 ASSUMPTIONS = [
     "the reference lexer reads keywords as whole words and `not in` / `else if` as single tokens when separated by whitespace only",
     "texts whose whole-word and first-match keyword readings disagree on acceptance are skipped as ambiguous",
